@@ -5,7 +5,6 @@ import (
 	"context"
 
 	"github.com/evstack/ev-node/internal/zzsym"
-	"github.com/evstack/ev-node/types"
 )
 
 // ZZ_C02_deliveries: the real SyncLoop fed with every sequence of up to
